@@ -1,5 +1,6 @@
 """debug helper: run the contracts of a module whose id contains a substring, serially, and print a summary"""
 import sys, time, os
+sys.set_int_max_str_digits(0)
 sys.path.insert(0, os.path.dirname(os.path.dirname(os.path.abspath(__file__))))
 from pyvc.driver import load_module
 from pyvc.runner import verify_contract
@@ -12,5 +13,5 @@ for c in load_module(mod):
         print("%-90s paths %3d %6.1fs unsup=%s err=%s bad=%d" % (c.cid[:90], r['paths'], time.time()-t0, (r['unsupported'] or '')[:100], (r['error'] or '')[:200], len(bad)))
         for k in list(bad)[:int(sys.argv[3]) if len(sys.argv)>3 else 0]:
             f=r['obligations'][k].get('failure') or {}
-            print("     ", k[:150], bad[k], (f.get('info') or '')[:200], str(f.get('inputs'))[:300])
+            print("  >> ", k[:150], bad[k], (f.get('detail') or f.get('info') or '')[:300], str(f.get('inputs'))[:200])
         if len(sys.argv)>3 and (r.get('error_tb') or r.get('unsupported_tb')): print((r.get('error_tb') or r.get('unsupported_tb'))[-1500:])
